@@ -140,11 +140,58 @@ def from_byte(cx):
         cx.add('G-PARITY', 'from_byte/canonical', not bad, 'the parity bit is taken from fp_from_mont(root), not from the Montgomery representation of the root', G.where(fn, s[0]))
 
 
+def to_byte(cx):
+    """G-PARITY-ENC: the 02/03 tag of the compressed encoding is the parity of the canonical affine y — every parity
+    expression in Point::to_byte_be reads a `y` that is the y of `to_affine_point(self)` and went through fp_from_mont
+    (the Jacobian Y and the Montgomery representative both have unrelated parities)"""
+    fn = cx.fn('<impl p256_ecc::Point>::to_byte_be', 'G-PARITY-ENC')
+    if fn is None:
+        return
+    P = Prov(fn, cx.F); cn = Canon(fn, P)
+    exprs = []
+    for b, p, te, fe in G.bool_switches(fn, P):
+        exprs += [a for a in p.args]
+        if p.raw is not None:
+            exprs.append(p.raw)
+    for b, t in fn.calls():
+        if t['fn']['k'] == 'def' and last(t['fn']['name']) in ('push', 'extend_from_slice', 'append'):
+            exprs += [norm(P.operand(a, b, len(fn.blocks[b]['stmts']))) for a in t['args'][1:]]
+    def parity_nodes(e, depth=0):
+        e = strip(e)
+        out = []
+        if depth > 60:
+            return out
+        if e.k == 'binop' and e.name in ('BitAnd', 'Rem') and len(e.args) == 2 and (const_int(e.args[1]) in (1, 2) or const_int(e.args[0]) in (1, 2)):
+            out.append(e)
+        for a in e.args:
+            out += parity_nodes(a, depth + 1)
+        return out
+    def ys(e, under_from_mont, depth=0):
+        """(is canonical affine y?) for every `.y` read below e"""
+        e = strip(e)
+        if depth > 60:
+            return []
+        if e.k == 'call' and last(e.name) == 'fp_from_mont':
+            under_from_mont = True
+        if e.k == 'field' and e.name == 'y' and e.args:
+            base = strip(e.args[0])
+            return [under_from_mont and base.k == 'call' and last(base.name) == 'to_affine_point']
+        out = []
+        for a in e.args:
+            out += ys(a, under_from_mont, depth + 1)
+        return out
+    nodes = [n for e in exprs for n in parity_nodes(e)]
+    verdicts = [v for n in nodes for v in ys(n, False)]
+    cx.add('G-PARITY-ENC', 'to_byte_be', bool(verdicts) and all(verdicts),
+           'the compressed tag is the parity of fp_from_mont(to_affine_point(self).y): %d parity expression(s), y operands canonical and affine: %s' % (len(nodes), verdicts), fn.loc())
+
+
 def run(cx):
     cx.not_decided.append('byte-exact interoperability with OpenSSL documents; correctness of the modular square root (functional)')
     ctor_pub(cx)
     ctor_priv(cx)
     from_byte(cx)
+    to_byte(cx)
 
 
 def asn1(cx):
